@@ -405,6 +405,85 @@ def modulation (is1272 : Bool) (sf bwHz crDenom : Nat) (ldro : UInt8) : Option (
     if is1272 then (if b ≥ 7 then some (sx1272SetLoraModParams sf (b - 7) (crDenom - 4) ldro) else none)
     else some (sx1276SetLoraModParams sf b (crDenom - 4) ldro)
 
+/-! ### packet parameters, IRQ mask, TX parameters, FIFO write (`sx127x.c`) -/
+
+def REG_FIFO : Nat := 0x00
+def REG_PA_CONFIG : Nat := 0x09
+def REG_PA_RAMP : Nat := 0x0A
+def REG_LORA_FIFO_ADDR_PTR : Nat := 0x0D
+def REG_LORA_FIFO_TX_BASE_ADDR : Nat := 0x0E
+def REG_LORA_IRQ_FLAGS_MASK : Nat := 0x11
+def REG_LORA_PREAMBLE_MSB : Nat := 0x20
+def REG_LORA_PAYLOAD_LENGTH : Nat := 0x22
+def REG_1276_PA_DAC : Nat := 0x4D
+def REG_1272_PA_DAC : Nat := 0x5A
+
+/-- `sx127x_set_lora_pkt_params`: standby (FIFO registers must not be written in sleep), FIFO base
+addresses := 0, header-type and CRC bits by read-modify-write of RegModemConfig1/2 (SX1272: both in
+RegModemConfig1), preamble length, RegPayloadLength = RegMaxPayloadLength = the payload length.
+The IQ setting is only remembered (applied by `set_tx` / `set_rx`). -/
+def setLoraPktParams (is1272 : Bool) (preamble : Nat) (implicit : Bool) (len : UInt8) (crc : Bool) : Prog Unit := do
+  setStandby
+  writeRegister REG_LORA_FIFO_TX_BASE_ADDR [0, 0]
+  let rs ← readRegister REG_LORA_MODEM_CONFIG_1 2
+  let r0 : UInt8 := UInt8.ofNat (byteAt rs 0)
+  let r1 : UInt8 := UInt8.ofNat (byteAt rs 1)
+  let (v0, v1) : UInt8 × UInt8 :=
+    if is1272 then
+      ((r0 &&& ~~~((1 : UInt8) <<< 2) &&& ~~~((1 : UInt8) <<< 1)) |||
+        ((if implicit then (1 : UInt8) <<< 2 else (0 : UInt8) <<< 2) ||| (if crc then (1 : UInt8) <<< 1 else (0 : UInt8) <<< 1)), r1)
+    else
+      ((r0 &&& ~~~((1 : UInt8) <<< 0)) ||| (if implicit then 1 else 0),
+       (r1 &&& ~~~((1 : UInt8) <<< 2)) ||| (if crc then (1 : UInt8) <<< 2 else (0 : UInt8) <<< 2))
+  writeRegister REG_LORA_MODEM_CONFIG_1 [v0, v1]
+  writeRegister REG_LORA_PREAMBLE_MSB [u8 (preamble / 256), u8 preamble]
+  writeRegister REG_LORA_PAYLOAD_LENGTH [len, len]
+
+/-- `sx127x_set_irq_mask` in LoRa mode: a register bit at 0 enables the interrupt.  `irq` is a set of
+`SX127X_IRQ_*` bits (TX_DONE 1<<0, RX_DONE 1<<1, HEADER_VALID 1<<4, CRC_ERROR 1<<6, CAD_DONE 1<<7,
+CAD_DETECTED 1<<8, TIMEOUT 1<<9; ALL = 0x7FF) -/
+def setIrqMask (irq : Nat) : Prog Unit :=
+  let has (b : Nat) : Bool := irq &&& b == b
+  let clr (c : Bool) (bit : UInt8) (r : UInt8) : UInt8 := if c then r &&& ~~~bit else r
+  let reg : UInt8 :=
+    if has 0x7FF then ~~~(0xFF : UInt8)
+    else
+      clr (has 0x200) ((1 : UInt8) <<< 7) <| clr (has 0x100) ((1 : UInt8) <<< 0) <| clr (has 0x80) ((1 : UInt8) <<< 2) <|
+      clr (has 0x10) ((1 : UInt8) <<< 4) <| clr (has 0x40) ((1 : UInt8) <<< 5) <| clr (has 0x02) ((1 : UInt8) <<< 6) <|
+      clr (has 0x01) ((1 : UInt8) <<< 3) 0xFF
+  writeRegister REG_LORA_IRQ_FLAGS_MASK [reg]
+
+/-- `(uint8_t) x` of a small C `int` -/
+def i2u8 (x : Int) : UInt8 := UInt8.ofNat (x % 256).toNat
+
+/-- `sx127x_set_pa_cfg` (remembers PA pin and the +20 dBm option) followed by `sx127x_set_tx_params`
+(`sx1276_set_tx_params` / `sx1272_set_tx_params`): read-modify-write of RegPaConfig, RegPaRamp and RegPaDac -/
+def setTxParams (is1272 boost is20 : Bool) (pwr : Int) (ramp : UInt8) : Prog Unit := do
+  let rs ← readRegister REG_PA_CONFIG 2
+  let ds ← readRegister (if is1272 then REG_1272_PA_DAC else REG_1276_PA_DAC) 1
+  let c0 : UInt8 := (UInt8.ofNat (byteAt rs 0) &&& ~~~((1 : UInt8) <<< 7)) ||| (if boost then (1 : UInt8) <<< 7 else (0 : UInt8) <<< 7)
+  let dac : UInt8 := (UInt8.ofNat (byteAt ds 0) &&& ~~~((7 : UInt8) <<< 0)) ||| (if is20 then 7 else 4)
+  let c0' : UInt8 :=
+    if boost then
+      if is20 then (c0 &&& ~~~((15 : UInt8) <<< 0)) ||| (i2u8 (pwr - 5) &&& 0x0F)
+      else (c0 &&& ~~~((15 : UInt8) <<< 0)) ||| (i2u8 (pwr - 2) &&& 0x0F)
+    else if is1272 then (c0 &&& ~~~((15 : UInt8) <<< 0)) ||| (i2u8 (pwr + 1) &&& 0x0F)
+    else
+      let (mx, p) : UInt8 × Int := if pwr > 0 then (7, pwr) else (0, pwr + 4)
+      (c0 &&& ~~~((7 : UInt8) <<< 4) &&& ~~~((15 : UInt8) <<< 0)) ||| (mx <<< 4) ||| (i2u8 p &&& 0x0F)
+  let r1 : UInt8 := (UInt8.ofNat (byteAt rs 1) &&& ~~~((15 : UInt8) <<< 0)) ||| ramp
+  writeRegister REG_PA_CONFIG [c0', r1]
+  writeRegister (if is1272 then REG_1272_PA_DAC else REG_1276_PA_DAC) [dac]
+
+/-- `sx127x_write_buffer(0, data)` in LoRa mode after packet parameters with payload length `pldLen`:
+RegPayloadLength, FIFO TX base and pointer := 0, then `pldLen` bytes of the driver's buffer into the FIFO -/
+def writeBuffer (pldLen : UInt8) (data : Bytes) : Prog Unit := do
+  writeRegister REG_LORA_PAYLOAD_LENGTH [pldLen]
+  writeRegister REG_LORA_FIFO_TX_BASE_ADDR [0]
+  writeRegister REG_LORA_FIFO_ADDR_PTR [0]
+  writeRegister REG_FIFO ((data ++ List.replicate (pldLen.toNat - data.length) 0).take pldLen.toNat)
+
+
 end S127
 
 end Spec.Semtech
